@@ -208,13 +208,13 @@ func report(w *World, prop *Property, results []*RuleResult, known *KnownFile, t
 		fnNames = append(fnNames, funcShort(f))
 	}
 	cov := map[string]any{
-		"explanation": prop.Explain + " Each rule enumerates obligation sites from the type-checked SSA of /repo's current source and discharges each by the stated argument; violated and undecided obligations both fail the check. Decides only the structural clauses listed; see 'not_decided'.",
-		"not_decided": prop.NotDecided,
-		"rules":       ruleRows,
-		"obligations": n,
-		"discharged":  nd,
+		"explanation":            prop.Explain + " Each rule enumerates obligation sites from the type-checked SSA of /repo's current source and discharges each by the stated argument; violated and undecided obligations both fail the check. Decides only the structural clauses listed; see 'not_decided'.",
+		"not_decided":            prop.NotDecided,
+		"rules":                  ruleRows,
+		"obligations":            n,
+		"discharged":             nd,
 		"known_findings_matched": knownHits,
-		"samples":     samples,
+		"samples":                samples,
 		"analysed": map[string]any{
 			"root":      w.Root,
 			"packages":  []string{w.Lib.PkgPath, w.Cmd.PkgPath},
